@@ -530,6 +530,11 @@ class OpsWorld(World):
                 single = is_single(x, y, ox, oy, oz) or x.dtype.kind != "c" or y.dtype.kind != "c"
                 lhs = oz.astype(np.complex128)
                 rhs = a * ox.astype(np.complex128) + oy.astype(np.complex128)
+                if not (np.all(np.isfinite(lhs.view(float))) and np.all(np.isfinite(rhs.view(float)))):
+                    # overflow of the working precision (e.g. repeated normal operators of a
+                    # large-gain kernel in float32): nothing to compare
+                    stats["probes.lin_overflow_unjudged"] += 1
+                    continue
                 num = float(np.linalg.norm((lhs - rhs).ravel()))
                 den = abs(a) * float(np.linalg.norm(ox.ravel())) + float(np.linalg.norm(oy.ravel())) + float(np.linalg.norm(lhs.ravel()))
                 tol = 1e-4 if single else 1e-10
